@@ -5,8 +5,9 @@
    Proved:
      D1_partial             the symmetry / hash / equality clauses and the clauses 1-4 of
                             `obs_equiv` (text, buffer, attribution of both maps) never fire:
-                            the verdict is 0, or 57 inside the K7 class, or 15 / 16 (the strict
-                            content clauses 5 / 6) outside it;
+                            the verdict is 0, or 57 inside the class k7c_shape of the checker,
+                            or 15 / 16 (the strict content clauses 5 / 6) outside it - the last
+                            case is excluded in EqDiffStrict.v (D1_final, D2_final);
      D_absent_is_empty      with "a file name determines its content" (consistentb (decl a))
                             the comparison of chk_C13 - `obs_equiv_laws`: an absent
                             sourcesContent entry and an empty one are the same - accepts, all
@@ -14,7 +15,8 @@
      D2_nonempty            if moreover every declared content is present and non-empty, the
                             strict checker answers 0 (no k7 hypothesis needed); superseded by
                             EqDiffPresent.D2_present (present, possibly empty).
-   Refuted (EqDiffRefute.v): "verdict 0 outside the K7 class" - the class is drawn too narrowly. *)
+   The checker's class was k7_shape before; "verdict 0 outside k7_shape" is false
+   (EqDiffRefute.v: old_class_too_narrow), which is why the checker now tests k7c_shape. *)
 From RS Require Import Base.Prelude Base.Text Rope.RopeModel Codec.Vlq Codec.CodecSpec
   Stream.Types Stream.Leaves Stream.Concat Stream.Replace Stream.Combined Stream.Tree
   Api.ApiTree Sem.Attr Sem.HashEq Api.ApiHist Checkers.ChkTree Checkers.ChkHist Checkers.ChkCombined
@@ -118,7 +120,7 @@ Lemma verdict_form :
   chk_C14_pair a b o =
   match obs_equiv (po_a o) (po_b o) with
   | 0 => 0
-  | k => if ((k =? 5) || (k =? 6)) && (k7_shape a || k7_shape b) then 57 else 10 + k
+  | k => if ((k =? 5) || (k =? 6)) && (k7c_shape a || k7c_shape b) then 57 else 10 + k
   end.
 Proof.
   pose proof Hcb as Hb'. destruct Hca as [Ka [_ [Ta _]]]. destruct Hb' as [Kb [_ [Tb _]]].
@@ -144,13 +146,13 @@ Qed.
 (* D1, partial: everything but the strict content clauses *)
 Theorem D1_partial_sec :
   let v := chk_C14_pair a b o in
-  v = 0 \/ (k7_shape a = true /\ v = 57) \/ (k7_shape a = false /\ (v = 15 \/ v = 16)).
+  v = 0 \/ (k7c_shape a = true /\ v = 57) \/ (k7c_shape a = false /\ (v = 15 \/ v = 16)).
 Proof.
-  cbn zeta. rewrite verdict_form, obs_equiv_form. rewrite <- (eq_k7 a b He Hda Hdb), orb_diag.
+  cbn zeta. rewrite verdict_form, obs_equiv_form. rewrite <- (eq_k7c a b He Hda Hdb), orb_diag.
   destruct (referenced_contents_agree _ _ _ true); cbn [negb].
   - destruct (referenced_contents_agree _ _ _ false); cbn [negb]; [left; reflexivity|].
-    right. destruct (k7_shape a); [left|right]; (split; [reflexivity|]); [reflexivity|right; reflexivity].
-  - right. destruct (k7_shape a); [left|right]; (split; [reflexivity|]); [reflexivity|left; reflexivity].
+    right. destruct (k7c_shape a); [left|right]; (split; [reflexivity|]); [reflexivity|right; reflexivity].
+  - right. destruct (k7c_shape a); [left|right]; (split; [reflexivity|]); [reflexivity|left; reflexivity].
 Qed.
 
 (* the absent = empty comparison of chk_C13 accepts when names determine contents *)
@@ -185,21 +187,21 @@ End Pair.
 (* ------------------------------------------------------------------ *)
 (* D1 (as far as it is true): clauses 1-4 of obs_equiv and the symmetry / hash / equality
    clauses never fire, whatever the two histories; the strict content clauses 5 / 6 fail with
-   57 inside the K7 class and with 15 / 16 outside it (which does happen: EqDiffRefute.v) *)
+   57 inside the class k7c_shape; 15 / 16 outside it is excluded by EqDiffStrict.D2_final *)
 Theorem D1_partial (a b : src) (opsa opsb : list hop) :
   src_eqb a b = true -> ColdCache.ids_distinct a -> ColdCache.ids_distinct b -> cls a -> cls b ->
   let v := chk_C14_pair a b (api_pair a opsa b opsb) in
-  v = 0 \/ (k7_shape a = true /\ v = 57) \/ (k7_shape a = false /\ (v = 15 \/ v = 16)).
+  v = 0 \/ (k7c_shape a = true /\ v = 57) \/ (k7c_shape a = false /\ (v = 15 \/ v = 16)).
 Proof. intros He Hda Hdb Hca _. apply D1_partial_sec; assumption. Qed.
 
-(* D2 (as far as it is true), partial: outside the K7 class only the clauses 5 / 6 can fire *)
+(* outside the class only the clauses 5 / 6 could fire (they do not: EqDiffStrict.D2_final) *)
 Theorem D2_partial (a b : src) (opsa opsb : list hop) :
   src_eqb a b = true -> ColdCache.ids_distinct a -> ColdCache.ids_distinct b -> cls a -> cls b ->
-  k7_shape a = false ->
+  k7c_shape a = false ->
   let v := chk_C14_pair a b (api_pair a opsa b opsb) in
-  k7_shape b = false /\ (v = 0 \/ v = 15 \/ v = 16).
+  k7c_shape b = false /\ (v = 0 \/ v = 15 \/ v = 16).
 Proof.
-  intros He Hda Hdb Hca _ K. cbn zeta. split; [rewrite <- (eq_k7 a b He Hda Hdb); exact K|].
+  intros He Hda Hdb Hca _ K. cbn zeta. split; [rewrite <- (eq_k7c a b He Hda Hdb); exact K|].
   destruct (D1_partial_sec a b opsa opsb He Hda Hdb Hca) as [H|[[H _]|[_ [H|H]]]].
   - left. exact H.
   - rewrite K in H. discriminate.
@@ -231,7 +233,7 @@ Qed.
 Corollary D1_partial_E (a b : src) (opsa opsb : list hop) :
   src_eqb a b = true -> EqObsTree.ids_distinct a -> EqObsTree.ids_distinct b -> cls a -> cls b ->
   let v := chk_C14_pair a b (api_pair a opsa b opsb) in
-  v = 0 \/ (k7_shape a = true /\ v = 57) \/ (k7_shape a = false /\ (v = 15 \/ v = 16)).
+  v = 0 \/ (k7c_shape a = true /\ v = 57) \/ (k7c_shape a = false /\ (v = 15 \/ v = 16)).
 Proof.
   intros He Hda Hdb. apply D1_partial; [exact He|apply ids_distinct_same; exact Hda|apply ids_distinct_same; exact Hdb].
 Qed.
